@@ -567,10 +567,14 @@ class Visitor:
 
         value = safe_get_expression(node.value, parent=self.current, parse_strings=False)
 
-        try:
-            docstring = self._get_docstring(ast_next(node), strict=True)
-        except (LastNodeError, AttributeError):
-            docstring = None
+        docstring = None
+        with suppress(LastNodeError, AttributeError):
+            next_node = ast_next(node)
+            # An attribute docstring follows the assignment within the same block:
+            # the first statement of a following `else` or `finally` block is not one.
+            blocks = (getattr(node.parent, field, None) for field in node.parent._fields)  # type: ignore[union-attr]
+            if any(isinstance(block, list) and node in block and next_node in block for block in blocks):
+                docstring = self._get_docstring(next_node, strict=True)
 
         for name in names:
             # TODO: Handle assigns like `x.y = z`.
